@@ -4,6 +4,7 @@ import (
 	"bytes"
 	"encoding/binary"
 	"fmt"
+	"reflect"
 	"runtime/metrics"
 	"sort"
 	"strconv"
@@ -242,6 +243,46 @@ type c04RT struct {
 	on   bool
 	want []byte
 	got  []byte
+	// probe, if set, decodes a fixed companion encoding and returns a canonical rendering of
+	// the result; it is called before the fault sweeps and again after them: what a decoder
+	// returns must not depend on the decodes (failed ones included) that came before
+	probe func() []byte
+	// lenient: the encoding was produced from field values drawn without regard to the
+	// field's own value rules (Process() normalises some), so only history independence is
+	// judged, not byte equality of the round trip
+	lenient bool
+}
+
+// c04Fill gives every exported field of basic kind its own non-zero value (embedded structs
+// included, the protocol version excepted).
+func c04Fill(v reflect.Value, n *int) {
+	for i := 0; i < v.NumField(); i++ {
+		f := v.Field(i)
+		sf := v.Type().Field(i)
+		if !f.CanSet() || sf.Name == "Ver" || sf.Name == "Flush" {
+			continue
+		}
+		*n++
+		switch f.Kind() {
+		case reflect.Struct:
+			c04Fill(f, n)
+		case reflect.String:
+			f.SetString("f" + strconv.Itoa(*n))
+		case reflect.Int32, reflect.Int64, reflect.Int, reflect.Int16:
+			f.SetInt(int64(100 + *n))
+		case reflect.Uint8:
+			f.SetUint(uint64(1 + *n%7))
+		case reflect.Bool:
+			f.SetBool(true)
+		case reflect.Float32, reflect.Float64:
+			f.SetFloat(float64(*n) + 0.5)
+		}
+	}
+}
+
+// c04SetVer sets a udp pack's protocol version field.
+func c04SetVer(p udp.UdpPack, ver int32) {
+	reflect.ValueOf(p).Elem().FieldByName("Ver").SetInt(int64(ver))
 }
 
 var rt04 = &c04RT{}
@@ -376,8 +417,33 @@ func c04Gen() (c04Case, []byte, func(in *wio.DataInputX)) {
 		if p == nil {
 			panic("no such udp pack")
 		}
+		populated := simrt.Chance(1, 2)
+		if populated {
+			n := 0
+			c04Fill(reflect.ValueOf(p).Elem(), &n)
+			rt04.lenient = true
+		}
 		b := udp.ToBytesPack(p)
+		// companion: the same pack as an older protocol version writes it (a complete, shorter
+		// message); decoded before and after the sweeps and rendered at the newest version, so
+		// that fields the older version does not carry show if anything was left in them
+		lo := []int32{10101, 10110, 20101, 20104, 30101, 30103, 50100, 50101}[simrt.Choose(8)]
+		if lo > ver {
+			lo = ver
+		}
+		c04SetVer(p, lo)
+		bLo := udp.ToBytesPack(p)
 		udp.ClosePack(p)
+		rt04.probe = func() []byte {
+			q := udp.ReadPack(t, lo, wio.NewDataInputX(bLo))
+			if q == nil {
+				return nil
+			}
+			c04SetVer(q, 50101)
+			out := udp.ToBytesPack(q)
+			udp.ClosePack(q)
+			return out
+		}
 		return c04Case{Kind: "udppack", Desc: fmt.Sprintf("type %d ver %d", t, ver)}, b, func(in *wio.DataInputX) {
 			q := udp.ReadPack(t, ver, in)
 			if q != nil {
@@ -640,7 +706,7 @@ func c04Body(rc *RunCtx) {
 	simrt.Probe("corpus:" + cs.Kind)
 	// round trip: what the decoder returned, encoded again, is the input — nothing in the
 	// object came from anywhere else (and nothing it kept was overwritten by later reads)
-	if rt04.got != nil {
+	if rt04.got != nil && !rt04.lenient {
 		want := rt04.want
 		if want == nil {
 			want = enc
@@ -670,6 +736,51 @@ func c04Body(rc *RunCtx) {
 	}
 	bound := func(n int) uint64 { return 4<<20 + 64*uint64(n) }
 	n := len(enc)
+	// history independence, part 1: renderings taken before any faulty input was decoded
+	firstGot := append([]byte(nil), rt04.got...)
+	var probe0 []byte
+	probeOK := false
+	if rt04.probe != nil {
+		func() {
+			defer func() { recover() }()
+			probe0 = rt04.probe()
+			probeOK = true
+		}()
+	}
+	probeAgain := func(when string) {
+		if !probeOK || stop {
+			return
+		}
+		var probe1 []byte
+		func() {
+			defer func() { recover() }()
+			probe1 = rt04.probe()
+		}()
+		d.Decodes++
+		if !bytes.Equal(probe0, probe1) {
+			at := 0
+			for at < len(probe0) && at < len(probe1) && probe0[at] == probe1[at] {
+				at++
+			}
+			stop = true
+			viol("fabricated-data", fmt.Sprintf("an older-version message of the same pack type decodes differently %s than before any faulty input (renderings differ at offset %d): fields the message does not carry hold data from an earlier, failed decode", when, at))
+		} else {
+			simrt.Probe("history_independent")
+		}
+	}
+	defer func() {
+		if stop || len(rc.Viols) > 0 {
+			return
+		}
+		// part 2: the same decodes again, after hundreds of truncated and corrupted inputs
+		rt04.got, rt04.on = nil, true
+		again := c04Decode(enc, dec)
+		rt04.on = false
+		if again.panicked || !bytes.Equal(rt04.got, firstGot) {
+			viol("fabricated-data", fmt.Sprintf("decoding the complete encoding again after the fault sweeps gives a different result (panicked=%v %s): what a decoder returns depends on earlier, failed decodes", again.panicked, again.msg))
+		}
+		probeAgain("after the fault sweeps")
+	}()
 	// (a) truncation at every offset, buffer mode and connection mode
 	tstride := 1
 	thead := 256
@@ -698,6 +809,9 @@ func c04Body(rc *RunCtx) {
 		case ob.panicked:
 			simrt.Probe("trunc_panicked")
 			cell("trunc", cls, "panic")
+			if k%3 == 0 {
+				probeAgain(fmt.Sprintf("right after the failed decode of the %d-byte prefix", k))
+			}
 		case ob.avail < 0:
 			cell("trunc", cls, "fabricated")
 			viol("fabricated-data", fmt.Sprintf("decoding the strict %d-byte prefix returned an object although it consumed %d bytes more than existed (buffer mode: missing bytes read as zeros)", k, -ob.avail))
